@@ -247,9 +247,14 @@ class MachineLogic(Generic[TContext, TEvent]):
                 )
                 continue
 
-            # ✅ Never clobber an explicitly provided implementation.
-            if name in registry:
-                continue
-
-            registry[name] = bound
+            # 🐍 A snake_case method also answers to the camelCase spelling a
+            #    JSON config conventionally uses, as discovered logic does.
+            parts = name.split("_")
+            camel = parts[0] + "".join(
+                p[:1].upper() + p[1:] for p in parts[1:]
+            )
+            for alias in dict.fromkeys((name, camel)):
+                # ✅ Never clobber an explicitly provided implementation.
+                if alias not in registry:
+                    registry[alias] = bound
             logger.debug("🧬 Auto-registered subclass method '%s'.", name)
